@@ -14,6 +14,7 @@ ops (macro ops executed by `harness/hcore/src/bin/timers.rs` at quiescent points
   `advstop <d>` `advkill <d>` `advdrain <d>`   clock += d, then the API call on the target
   `abort <i>` `stop` `kill` `drain`
   `hold` `psrelease`              gate the target's `post_stop` / open the gate
+  `starthold` (first op of a case) `started`   the target sits in a gated `post_start` (status `Starting`) / the gate opens
   `fail` `advfail <d>`            cast a message on which the target's handler returns `Err` (the actor FAILS)
   `drop <i>` `advdrop <d> <i>`    drop the `JoinHandle` of timer i (the task is detached; an `AbortHandle` is kept)
 
@@ -73,7 +74,7 @@ def showTarget (T : Target) : String :=
   match T.exit, T.stopping with
   | some (r, t), _ => s!"Stopped:{r.render}@{t}"
   | none, some (_, ts) => s!"PostStop@{ts}"
-  | none, none => "Running"
+  | none, none => if T.starting then "Starting" else "Running"
 
 /-- attempts of the sending timers beyond the lengths recorded in `old` -/
 def newAttempts (old new : List Timer) : List (Nat × Nat × Nat) :=
@@ -122,6 +123,8 @@ def parseMOp? (ws : List String) : Option MOp :=
   | ["stop"] => some .stop | ["kill"] => some .kill | ["drain"] => some .drain
   | ["drop", i] => i.toNat?.map MOp.dropHandle
   | ["advdrop", d, i] => do pure (MOp.advDrop (← d.toNat?) (← i.toNat?))
+  | ["starthold"] => some .startHold
+  | ["started"] => some .started
   | ["fail"] => some .fail
   | ["advfail", d] => d.toNat?.map MOp.advFail
   -- the handler PANICS instead of returning `Err`: ractor catches it, the same `ActorFailed`
@@ -166,7 +169,7 @@ def parseImpl? (s : String) : Option ImplObs :=
       let ps ← match field? tgt "PostStop@" with
         | some ts => ts.toNat?.map some
         | none => some none
-      let exit ← if tgt == "Running" || ps.isSome then some none else
+      let exit ← if tgt == "Running" || tgt == "Starting" || ps.isSome then some none else
         match field? tgt "Stopped:" with
         | some rest =>
           match rest.splitOn "@" with
@@ -234,6 +237,8 @@ def absorb (v : State) (mop : MOp) (o : ImplObs) : State × List String := Id.ru
   let T := match mop with
     | .stop | .advStop _ => { T with manualStop := true }
     | .fail | .advFail _ => { T with manualFail := true }
+    | .startHold => { T with starting := true }
+    | .started => { T with starting := false }
     | .drain | .advDrain _ => { T with draining := true }
     | .kill | .advKill _ => { T with manualKill := true }
     | _ => T
